@@ -5,6 +5,7 @@
 # it, then runs the quick check of each property against the copy.  The copy is removed afterwards.
 set -u
 name=$1; patch=$2; demo=$3; shift 3
+here=$(cd "$(dirname "$0")/.." && pwd)   # the checks of THIS copy of /verif (a vp run snapshot uses its own)
 export GOFLAGS=-mod=mod GOPROXY=off GOSUMDB=off GOTOOLCHAIN=local
 scratch=/tmp/mut/$name
 rm -rf "$scratch"; mkdir -p /tmp/mut
@@ -21,7 +22,7 @@ if [ "$demo" != "-" ]; then
 fi
 (cd "$scratch" && go build ./... && go test -vet=off -count=1 ./... >/tmp/mut/$name.suite.log 2>&1) && res="$res suite-passes" || res="$res SUITE-FAILS"
 for p in "$@"; do
-  VERIF_REPO="$scratch" VERIF_EVIDENCE_DIR=/tmp/mut/ev-$name /verif/check "$p" quick > /tmp/mut/$name.$p.log 2>&1
+  VERIF_REPO="$scratch" VERIF_EVIDENCE_DIR=/tmp/mut/ev-$name "$here/check" "$p" quick > /tmp/mut/$name.$p.log 2>&1
   rc=$?
   res="$res $p:rc=$rc"
 done
